@@ -16,12 +16,30 @@ def build(_exp=None):
     u = Unit('types_core')
     u.header = _read('header.rs')
     u.prelude = [_read('std.rs'), _read('types_spec.rs')]
-    root = u.module('', file='crates/types/src/lib.rs', uses='pub use crate::predicate::{Predicate}; pub use crate::solution::{Solution, SolutionSet};')
+    add_types(u, None, 'crate')
+    return u
+
+
+def _subst(P, f):
+    r = lambda t: t.replace('%(P)s', P) if isinstance(t, str) else t
+    f.ensures, f.requires = r(f.ensures), r(f.requires)
+    f.loops = {k: {kk: r(vv) for kk, vv in v.items()} for k, v in f.loops.items()}
+    f.hints = [tuple(r(x) for x in h) for h in f.hints]
+    return f
+
+
+def add_types(u, name, P):
+    """add the essential-types modules to unit u, as crate root (name=None, P='crate') or nested in module `name` (P='crate::<name>')"""
+    root = u.module(name or '', file='crates/types/src/lib.rs', uses='pub use %s::predicate::{Predicate}; pub use %s::solution::{Solution, SolutionSet};' % (P, P) + (' use crate::*;' if name else ''))
+    _add(u, root if name else None, root, P)
+
+
+def _add(u, par, root, P):
     for t in ('type Word', 'type Key', 'type Value', 'type Hash', 'struct PredicateAddress'):
         root.item(t)
     root.item('struct ContentAddress', assumed_clone=True)
 
-    sol = u.module('solution', file='crates/types/src/solution.rs', uses='use crate::{Key, PredicateAddress, Value, Word}; use crate::*;')
+    sol = u.module('solution', file='crates/types/src/solution.rs', parent=par, uses='use %s::{Key, PredicateAddress, Value, Word}; use crate::*;' % P)
     for t in ('type SolutionIndex', 'struct SolutionSet', 'struct Solution', 'struct Mutation'):
         sol.item(t)
     sol.spec('''
@@ -31,10 +49,10 @@ pub open spec fn mutation_pairs(ms: Seq<Mutation>) -> Seq<(Seq<i64>, Seq<i64>)> 
     sol.impl('impl Mutation', [
         F('encode_size', ensures='r == 2 + self.key@.len() + self.value@.len()', requires='2 + self.key@.len() + self.value@.len() <= usize::MAX', props=('C18', 'C06')),
     ])
-    enc = u.module('encode', file='crates/types/src/solution/encode.rs', parent=sol, uses='use crate::Word; use super::Mutation; use crate::*;')
+    enc = u.module('encode', file='crates/types/src/solution/encode.rs', parent=sol, uses='use %s::Word; use super::Mutation; use crate::*;' % P)
     enc.fn('encode_mutation_size', F('encode_mutation_size', requires='2 + mutation.key@.len() + mutation.value@.len() <= usize::MAX',
                                      ensures='r == crate::enc_mutation(mutation.key@, mutation.value@).len()', props=('C18', 'C06')))
-    dec = u.module('decode', file='crates/types/src/solution/decode.rs', parent=sol, uses='use crate::Word; use super::Mutation; use crate::*;\nbroadcast use crate::axiom_slice_i64_len;')
+    dec = u.module('decode', file='crates/types/src/solution/decode.rs', parent=sol, uses='use %s::Word; use super::Mutation; use crate::*;\nbroadcast use crate::axiom_slice_i64_len;' % P)
     dec.item('enum MutationDecodeError')
     dec.fn('decode_mutation', F('decode_mutation', ensures="""
             // decoder inverts the encoder on every input that starts with an encoding
@@ -43,18 +61,18 @@ pub open spec fn mutation_pairs(ms: Seq<Mutation>) -> Seq<(Seq<i64>, Seq<i64>)> 
             r matches Ok(m) ==> crate::enc_mutation(m.key@, m.value@).len() <= bytes@.len() && bytes@.take(crate::enc_mutation(m.key@, m.value@).len() as int) == crate::enc_mutation(m.key@, m.value@)""",
         props=('C06', 'C18')))
 
-    dec.fn('decode_mutations', F('decode_mutations', ensures="""
-            forall|ms: Seq<(Seq<i64>, Seq<i64>)>| ms.len() <= i64::MAX && bytes@ == crate::enc_mutations(ms) ==> r is Ok && crate::solution::mutation_pairs(r->Ok_0@) =~= ms,
-            r matches Ok(v) ==> bytes@.len() > 0 && ((bytes@[0] == 0 && v@.len() == 0) || (bytes@[0] > 0 && bytes@.skip(1) =~= crate::enc_mutation_list(crate::solution::mutation_pairs(v@))))""",
+    dec.fn('decode_mutations', _subst(P, F('decode_mutations', ensures="""
+            forall|ms: Seq<(Seq<i64>, Seq<i64>)>| ms.len() <= i64::MAX && bytes@ == crate::enc_mutations(ms) ==> r is Ok && %(P)s::solution::mutation_pairs(r->Ok_0@) =~= ms,
+            r matches Ok(v) ==> bytes@.len() > 0 && ((bytes@[0] == 0 && v@.len() == 0) || (bytes@[0] > 0 && bytes@.skip(1) =~= crate::enc_mutation_list(%(P)s::solution::mutation_pairs(v@))))""",
         loops={0: {'invariant': """1 <= i <= bytes@.len(), len > 0, bytes@[0] > 0,
-                bytes@.subrange(1, i as int) =~= crate::enc_mutation_list(crate::solution::mutation_pairs(mutations@)),
+                bytes@.subrange(1, i as int) =~= crate::enc_mutation_list(%(P)s::solution::mutation_pairs(mutations@)),
                 forall|ms: Seq<(Seq<i64>, Seq<i64>)>| bytes@ == crate::enc_mutations(ms) ==> mutations@.len() <= ms.len()
                     && bytes@.skip(i as int) =~= crate::enc_mutation_list(ms.skip(mutations@.len() as int))
-                    && crate::solution::mutation_pairs(mutations@) =~= ms.take(mutations@.len() as int)""",
+                    && %(P)s::solution::mutation_pairs(mutations@) =~= ms.take(mutations@.len() as int)""",
                    'decreases': 'bytes@.len() - i'}},
         hints=[('let mut i = 1;', 'after', """assert forall|ms: Seq<(Seq<i64>, Seq<i64>)>| bytes@ == crate::enc_mutations(ms) implies
                     bytes@.skip(1) =~= crate::enc_mutation_list(ms.skip(0)) by { assert(ms.skip(0) =~= ms); }
-                assert(crate::solution::mutation_pairs(mutations@) =~= Seq::<(Seq<i64>, Seq<i64>)>::empty());"""),
+                assert(%(P)s::solution::mutation_pairs(mutations@) =~= Seq::<(Seq<i64>, Seq<i64>)>::empty());"""),
                ('let mutation = decode_mutation(b)?;', 'before', """assert(b@ =~= bytes@.skip(i as int));
                 assert forall|ms: Seq<(Seq<i64>, Seq<i64>)>| bytes@ == crate::enc_mutations(ms) implies
                     mutations@.len() < ms.len() && b@ == #[trigger] (crate::enc_mutation(ms[mutations@.len() as int].0, ms[mutations@.len() as int].1) + crate::enc_mutation_list(ms.skip(mutations@.len() as int + 1))) by {
@@ -63,13 +81,13 @@ pub open spec fn mutation_pairs(ms: Seq<Mutation>) -> Seq<(Seq<i64>, Seq<i64>)> 
                     assert(t.len() > 0);
                     assert(t[0] == ms[k]); assert(t.skip(1) =~= ms.skip(k + 1)); }"""),
                ('i += size;', 'before', 'let ghost old_i = i; let ghost old_muts = mutations@; let ghost mp = mutation.pair();', 'ghost'),
-               ('mutations.push(mutation);', 'after', """let pairs0 = crate::solution::mutation_pairs(old_muts);
-                assert(crate::solution::mutation_pairs(mutations@) =~= pairs0.push(mp));
+               ('mutations.push(mutation);', 'after', """let pairs0 = %(P)s::solution::mutation_pairs(old_muts);
+                assert(%(P)s::solution::mutation_pairs(mutations@) =~= pairs0.push(mp));
                 crate::lemma_enc_list_push(pairs0, mp);
                 assert(bytes@.subrange(1, i as int) =~= bytes@.subrange(1, old_i as int) + b@.take(size as int));
                 assert forall|ms: Seq<(Seq<i64>, Seq<i64>)>| bytes@ == crate::enc_mutations(ms) implies mutations@.len() <= ms.len()
                     && bytes@.skip(i as int) =~= crate::enc_mutation_list(ms.skip(mutations@.len() as int))
-                    && crate::solution::mutation_pairs(mutations@) =~= ms.take(mutations@.len() as int) by {
+                    && %(P)s::solution::mutation_pairs(mutations@) =~= ms.take(mutations@.len() as int) by {
                     let k = old_muts.len() as int;
                     let x = crate::enc_mutation(ms[k].0, ms[k].1); let y = crate::enc_mutation_list(ms.skip(k + 1));
                     assert(b@ == x + y);
@@ -78,8 +96,8 @@ pub open spec fn mutation_pairs(ms: Seq<Mutation>) -> Seq<(Seq<i64>, Seq<i64>)> 
                     assert(bytes@.skip(i as int) =~= b@.skip(size as int));
                     assert((x + y).skip(x.len() as int) =~= y);
                     assert(ms.take(k + 1) =~= ms.take(k).push(ms[k])); }""")],
-        props=('C06', 'C18')))
-    pr = u.module('predicate', file='crates/types/src/predicate.rs', uses='use crate::ContentAddress; use crate::*;')
+        props=('C06', 'C18'))))
+    pr = u.module('predicate', file='crates/types/src/predicate.rs', parent=par, uses='use %s::ContentAddress; use crate::*;' % P)
     pr.item('struct Node')
     pr.item('type Edge')
     pr.item('struct Predicate')
@@ -99,4 +117,3 @@ impl Predicate { pub open spec fn starts(&self) -> Seq<u16> { self.nodes@.map_va
                                          'exec const %s: usize ensures %s == 2 { core::mem::size_of::<u16>() }' % (c, c))])
     pe.fn('predicate_encoded_size', F('predicate_encoded_size', requires='predicate.nodes@.len() <= 1000, predicate.edges@.len() <= 1000',
           ensures='r == crate::predicate_size_spec(predicate.nodes@.len(), predicate.edges@.len())', props=('C17', 'C18')))
-    return u
